@@ -12,7 +12,7 @@ TECHNIQUE = ('per-entry contribution rule on MIR paths: loop iterators are resol
              'event of a kernel is evaluated to a polynomial and compared with the dense definition; decision tables for the alpha / beta fast paths')
 EXPLANATION = (
     "Partial claim. Equality with the dense result for every matrix is a statement about loops over runtime index arrays and is NOT decided "
-    "as such; nor are the sort of the triplets, canonicalisation, "
+    "as such; nor are the sorts (of the triplets, of the rows inside a column), "
     "(its per-column bookkeeping is C09.R7). Decided on the MIR of the current tree, for the "
     "kernels every residual, KKT product, norm and scaling goes through, is the *entry-wise meaning*: with the loop iterators resolved to a column "
     "j, a stored entry k of that column (k in colptr[j]..colptr[j+1]) and its row r = rowval[k], value v = nzval[k], (R1) gemv N adds "
@@ -30,7 +30,8 @@ EXPLANATION = (
     "into an n x m allocation; (R11) dropzeros keeps an entry iff its value != 0, moves value and row together to the write cursor, reads the old column end before overwriting it and "
     "truncates both arrays to the cursor; (R12) select_rows (C09.R7 re-run); (R13) new_from_triplets accumulates duplicates into the entry at the write cursor, moves new entries row and value together and "
     "permutes rows and values with the same sort permutation; (R14) set_entry inserts row and value at the sorted position, overwrites there if present and "
-    "rebuilds the pointers with one more entry in that column, get_entry reads at first + the binary-search index. Every inner loop must be the entry range of the *same* column the outer "
+    "rebuilds the pointers with one more entry in that column, ignores only a new zero, get_entry reads at first + the binary-search index; (R15) deduplicate sums runs inside "
+    "one column only (every scan bounded by the column end) and writes row and sum together at the output cursor. Every inner loop must be the entry range of the *same* column the outer "
     "loop is at: an iterator that is not recognised as such leaves a raw term and the comparison fails closed.")
 ASSUMPTIONS = ['rustc MIR construction and trait resolution are correct',
                'the matrix is canonical (colptr monotone, rows in range): what check_format establishes',
@@ -598,16 +599,37 @@ def triangle(rep, F, tag, rid='C16.R7'):
                     'and the constructor of the result asserts / the matrix is malformed', f.loc())
         g = F.one(name='is_triu', adt='CscMatrix')
         cl = F.closures_of.get(g.key, [])
-        R.check(len(cl) == 1 and canon(cl[0].sym_local(0)) in ('lt(arg1._ref__col, arg2)', 'lt(arg1.col, arg2)'), 'is_triu|test' + tag,
-                'is_triu looks for %s, expected any row > col' % [canon(c.sym_local(0)) for c in cl], g.loc())
+        JJ = 'next(into_iter(Range::Range(0_usize, ncols(self))))@Some.0'
+        JJn = 'next(into_iter(Range::Range(0_usize, self.n)))@Some.0'
         rows = set()
+        tests = set()
         for val, ret, ev, tr in Walker(g, cut_loops=True).leaves():
-            a = [v for k, v in val.items() if k.startswith('any(')]
+            if ret[0] == 'diverge':
+                continue
+            a = []
+            for k, v in val.items():
+                kk = nz(k)
+                if kk.startswith('any('):
+                    # closure form: any(iter(rows of column j), |row| row > col)
+                    for J in (JJ, JJn):
+                        if kk == 'any(iter(index(self.rowval, Range::Range(index(self.colptr, %s), index(self.colptr, add(%s, 1_usize))))), closure(%s))' % (J, J, J):
+                            if len(cl) == 1 and canon(cl[0].sym_local(0)) in ('lt(arg1._ref__col, arg2)', 'lt(arg1.col, arg2)', 'gt(arg2, arg1._ref__col)', 'gt(arg2, arg1.col)'):
+                                tests.add('row>col')
+                    a.append(v)
+                elif kk.startswith(('lt(', 'gt(')):
+                    # loop form: the element of the rows of column j is compared with j
+                    for J in (JJ, JJn):
+                        E = 'next(into_iter(iter(index(self.rowval, Range::Range(index(self.colptr, %s), index(self.colptr, add(%s, 1_usize)))))))@Some.0' % (J, J)
+                        if kk in ('lt(%s, %s)' % (J, E), 'gt(%s, %s)' % (E, J)):
+                            tests.add('row>col')
+                            a.append(v)
             if ret[0] == 'c' and a:
                 rows.add((a[0], ret[1]))
             if ret[0] == 'c' and not a:
                 rows.add(('exit', ret[1]))
-        R.check((1, 0) in rows and ('exit', 1) in rows and (1, 1) not in rows, 'is_triu|table' + tag, 'is_triu returns %s' % sorted(rows, key=str), g.loc())
+        R.check(tests == {'row>col'}, 'is_triu|test' + tag,
+                'is_triu does not test `row > col` over the rows of every column (closures %s)' % [canon(c.sym_local(0)) for c in cl], g.loc())
+        R.check((1, 0) in rows and ('exit', 1) in rows and (1, 1) not in rows and (0, 1) not in rows and (0, 0) not in rows, 'is_triu|table' + tag, 'is_triu returns %s' % sorted(rows, key=str), g.loc())
         h = F.one(name='index_to_coord', adt='CscMatrix')
         r0 = [nz(str(ret[1])) for val, ret, ev, tr in Walker(h, cut_loops=True).leaves() if ret[0] == 's']
         cl = F.closures_of.get(h.key, [])
@@ -978,6 +1000,13 @@ def entry_access(rep, F, tag, rid='C16.R14'):
             elif stores:
                 seen.add('overwrite')
                 R.check(stores == [('index_mut(self.nzval, %s)' % POS, 'arg3')], 'set|overwrite-position' + tag, 'an existing entry is overwritten by %s' % stores, f.loc())
+            else:
+                # nothing written: only a *new* zero may be ignored - an existing entry must be overwritten, also with zero
+                v_ = {nz(k): x for k, x in val.items()}
+                absent = any((k.startswith('eq(') and 'partition_point(' in k and 'len(' in k and x == 1) or (k.startswith('ne(') and 'partition_point(' in k and 'arg2.0' in k and x == 1) for k, x in v_.items())
+                R.check(absent and any(k in ('eq(arg3, zero())', 'eq(zero(), arg3)') and x == 1 for k, x in v_.items()), 'set|noop-only-new-zero' + tag,
+                        'set_entry returns without writing on the path %s: that is right only for a zero value at a position that is not stored yet (an existing entry set to zero must '
+                        'become zero)' % {k[:50]: x for k, x in v_.items() if not k.startswith('lt(')}, f.loc())
         R.check(seen == {'insert', 'overwrite'}, 'set|cases' + tag, 'set_entry cases analysed: %s' % sorted(seen), f.loc())
         g = F.one(name='get_entry', adt='CscMatrix')
         rets = set()
@@ -987,6 +1016,65 @@ def entry_access(rep, F, tag, rid='C16.R14'):
         GROWS = 'index(self.rowval, Range::Range(index(self.colptr, arg2.1), index(self.colptr, add(arg2.1, 1_usize))))'
         want = {'Option::None', 'Option::Some(index(self.nzval, add(index(self.colptr, arg2.1), binary_search(%s, arg2.0)@Ok.0)))' % GROWS}
         R.check(rets == want, 'get' + tag, 'get_entry returns %s' % sorted(x[:120] for x in rets), g.loc())
+
+    R.guard(body)
+
+
+# ---------------------------------------------------------------------------
+# R15: deduplicate (canonicalize)
+# ---------------------------------------------------------------------------
+
+def dedup(rep, F, tag):
+    """deduplicate sums runs of equal row indices *within a column*: both scanning loops are bounded by the column's end (ptr < stop, stop =
+    colptr[col+1] read before it is overwritten), the run sum starts from nzval[ptr] and adds nzval[ptr] while the row repeats, the result is
+    written (row and sum together) at the output cursor nnz, colptr[col+1] = nnz closes the column and both arrays are truncated to nnz."""
+    R = rep.rule('C16.R15', 'deduplicate: runs are summed inside one column (every scan bounded by the column end), row and sum written together at the output cursor, pointers and lengths follow the cursor')
+
+    def body():
+        f = F.one(name='deduplicate', adt='CscMatrix')
+        nz = lambda t: t.replace('withoverflow', '').replace(').0', ')')
+        J = 'next(into_iter(Range::Range(0_usize, self.n)))@Some.0'
+        bounds = [nz(canon(f.sym_operand(c.args[1]))) for c in f.calls if c.callee.name == 'lt' and len(c.args) == 2 and nz(canon(f.sym_operand(c.args[0]))) == 'var:ptr']
+        if not bounds:
+            bounds = [nz(canon(f.sym_rvalue(st['rv']))) for bi, si, st in f.assignments() if st['rv'].get('k') == 'bin' and st['rv'].get('op') == 'Lt' and 'var:ptr' in nz(canon(f.sym_rvalue(st['rv'])))]
+            bounds = [re.sub(r'^lt\(var:ptr, (.*)\)$', r'\1', b) for b in bounds]
+        R.check(len(bounds) >= 2 and all(b == 'var:stop' for b in bounds), 'scan-bounded-by-column' + tag,
+                'the scanning cursor of deduplicate is compared with %s: every scan (outer and run-summing loop) must stop at the end of the current column, otherwise a run spills into '
+                'the next column when its first row equals this column\'s last row' % bounds, f.loc())
+        asg = {}
+        for bi, si, st in f.assignments():
+            if not st['p']['p']:
+                nm_ = f.local_name(st['p']['l'])
+                if nm_ in ('ptr', 'stop', 'accum', 'nnz', 'thisrow'):
+                    asg.setdefault(nm_, set()).add(nz(canon(f.sym_rvalue(st['rv']))))
+        want = {'stop': {'0_usize', 'index(self.colptr, add(%s, 1_usize))' % J}, 'ptr': {'var:stop', 'add(var:ptr, 1_usize)'},
+                'accum': {'index(self.nzval, var:ptr)', 'add(var:accum, index(self.nzval, var:ptr))'}, 'nnz': {'0_usize', 'add(var:nnz, 1_usize)'}}
+        for k, w in want.items():
+            got = asg.get(k, set())
+            R.check(got == w or (k == 'accum' and got == {'index(self.nzval, var:ptr)', 'add(index(self.nzval, var:ptr), var:accum)'}), 'update|%s%s' % (k, tag), 'deduplicate updates %s by %s, expected %s' % (k, sorted(got), sorted(w)), f.loc())
+        stores = sorted((nz(canon(f.sym_place(st['p']))), nz(canon(f.sym_rvalue(st['rv'])))) for bi, si, st in f.assignments() if st['p']['p'] and st['p']['l'] != 0)
+        wstores = sorted([('index_mut(self.rowval, var:nnz)', 'var:thisrow'), ('index_mut(self.nzval, var:nnz)', 'var:accum'), ('index_mut(self.colptr, add(%s, 1_usize))' % J, 'var:nnz')])
+        # (thisrow is a single-assignment local: the static expansion shows its defining read)
+        stores = sorted((t_, 'var:thisrow' if v_ == 'index(self.rowval, var:ptr)' else v_) for t_, v_ in stores)
+        R.check(stores == wstores, 'stores' + tag, 'deduplicate stores %s, expected %s' % (stores, wstores), f.loc())
+        trd = [c for c in f.calls if c.callee.name in ('index',) and False]
+        tr = sorted(nz(canon(('call', c.callee.name, tuple(f.sym_operand(a) for a in c.args), c.bb))) for c in f.calls if c.callee.name == 'truncate')
+        R.check(tr == ['truncate(self.nzval, var:nnz)', 'truncate(self.rowval, var:nnz)'], 'truncate' + tag, 'deduplicate ends with %s' % tr, f.loc())
+        # ptr = stop is taken before stop is advanced; the column end is read before colptr[col+1] is overwritten
+        blk = {}
+        for bi, si, st in f.assignments():
+            v = nz(canon(f.sym_rvalue(st['rv'])))
+            if not st['p']['p'] and f.local_name(st['p']['l']) == 'ptr' and v == 'var:stop':
+                blk['ptr'] = (bi, si)
+            if not st['p']['p'] and f.local_name(st['p']['l']) == 'stop' and v.startswith('index(self.colptr'):
+                blk['stop'] = (bi, si)
+            if st['p']['p'] and nz(canon(f.sym_place(st['p']))).startswith('index_mut(self.colptr'):
+                blk['close'] = (bi, si)
+        ok = all(k in blk for k in ('ptr', 'stop', 'close'))
+        if ok:
+            before = lambda a, b: (a[0] == b[0] and a[1] < b[1]) or (a[0] != b[0] and f.dominates(a[0], b[0]))
+            ok = before(blk['ptr'], blk['stop']) and before(blk['stop'], blk['close'])
+        R.check(ok, 'order' + tag, 'deduplicate must take ptr = stop, then read the new column end, then (after the scan) overwrite colptr[col+1]', f.loc())
 
     R.guard(body)
 
@@ -1007,6 +1095,7 @@ def run(ctx, rep, tier):
         drop_zeros(rep, F, tag)
         triplet_consolidation(rep, F, tag)
         entry_access(rep, F, tag)
+        dedup(rep, F, tag)
     # row selection (presolve): per-column bookkeeping, renumbered rows, rebuilt matrix (C09.R7 re-run)
     from . import c09, c04
     c09.row_selection(c04._Ren(rep, 'C09.R7', 'C16.R12'), ctx.facts('default'), '')
